@@ -58,6 +58,7 @@ type JobSpec struct {
 type PkgSpec struct {
 	Pkg     string    `json:"pkg"`
 	Harness []string  `json:"harness"`
+	API     []string  `json:"api,omitempty"` // extra harness API templates (e.g. "slog")
 	Quick   []JobSpec `json:"quick"`
 	Thorough []JobSpec `json:"thorough"`
 }
